@@ -359,9 +359,12 @@ func (t QualifiedRule) serializeTo(writer io.StringWriter) {
 }
 
 func (t AtRule) serializeTo(writer io.StringWriter) {
-	writer.WriteString("@")
-	writer.WriteString(serializeIdentifier(t.AtKeyword))
-	serializeTo(t.Prelude, writer)
+	// serialize the keyword together with the prelude, so that a prelude
+	// starting with an identifier, a number or a function is not glued to it
+	tokens := make([]Token, 0, len(t.Prelude)+1)
+	tokens = append(tokens, AtKeyword{stringVal{Value: t.AtKeyword}})
+	tokens = append(tokens, t.Prelude...)
+	serializeTo(tokens, writer)
 	if t.Content == nil {
 		writer.WriteString(";")
 	} else {
